@@ -59,6 +59,7 @@ type CheckRun struct {
 	explanation string
 	bounds   map[string]interface{}
 	replayBudget int
+	groupKey     func(v Violation) string
 }
 
 func loadKnown() []KnownFinding {
@@ -173,6 +174,9 @@ func (cr *CheckRun) finish() int {
 	var order []string
 	for _, v := range cr.fails {
 		k := v.Label + " @ " + v.Case
+		if cr.groupKey != nil {
+			k = cr.groupKey(v)
+		}
 		g := groups[k]
 		if g == nil {
 			g = &grp{key: k}
